@@ -116,7 +116,7 @@ def run_unit(unit, tier="quick", seed=0, repo=None, timeout_s=None, extra_args=(
         return res
     # canaries go inside the verus! block: before the final `} // verus!`
     marker = "} // verus!"
-    k = text.rfind(marker)
+    k = text.find(marker)
     if k < 0:
         res["reason"] = "template has no `} // verus!` marker"
         return res
